@@ -1,7 +1,10 @@
 #!/bin/bash
 # seedrun.sh <seeded-id> <PROP> [check args...] : apply seeded/<id>/patch.diff to /repo, run ./check, undo.
+# SEED_REPO=<worktree of /repo>: patch and check that tree instead (through VERIF_REPO), /repo stays untouched.
 id=$1; shift
-git -C /repo apply /verif/seeded/$id/patch.diff || exit 2
-trap 'git -C /repo checkout -- .' EXIT
+R=${SEED_REPO:-/repo}
+if [ "$R" != /repo ]; then export VERIF_REPO=$R VERIF_WORK=${VERIF_WORK:-/tmp/vw-seed}; fi
+git -C $R apply /verif/seeded/$id/patch.diff || exit 2
+trap 'git -C $R checkout -- .' EXIT
 cd /verif && ./check "$@"
 echo "check-exit=$?"
